@@ -24,8 +24,8 @@ STUBS = [
     "numpy float arrays that receive proxies become dtype=object arrays (np facade); slicing/broadcast/+= are numpy's own",
 ]
 FLOAT_MODE = "R-mode exact reals for sample values (sums of products with at most one symbolic factor)"
-BOUNDS = {"quick": dict(programs=6, slot_lengths="4-16 ns", extensions=[0, 3]),
-          "thorough": dict(programs=9, slot_lengths="4-24 ns", extensions=[0, 1, 5])}
+BOUNDS = {"quick": dict(programs=11, slot_lengths="4-20 ns", extensions=[0, 3]),
+          "thorough": dict(programs=11, slot_lengths="4-32 ns (every program also with all durations lengthened by 1 and 3 clock periods)", extensions=[0, 1, 2, 5])}
 OUTSIDE = ["modulated samples (C14)", "symbolic timelines", "phase values outside pulses (kept from the previous pulse)"]
 
 S = lambda n, k="real", **kw: dict(s=n, k=k, **kw)  # noqa: E731
@@ -174,7 +174,7 @@ def h_program(shape):
         from pulser.pulse import Pulse
 
         seq = l2.new_seq(P["device"])
-        l2.run_prefix(inp, seq, P["prog"])
+        l2.run_prefix(inp, seq, stretch(P["prog"], shape["stretch"]) if shape.get("stretch") else P["prog"])
         samples = pulser.sampler.sample(seq)
         obs = []
         refs = {}
@@ -259,11 +259,42 @@ def h_program(shape):
     return h
 
 
+def stretch(prog, add):
+    """The same program with every waveform / delay / EOM pulse duration lengthened by `add` ns."""
+    def wf(w):
+        if isinstance(w, list) and w and w[0] in ("const", "ramp", "blackman"):
+            return [w[0], w[1] + add] + list(w[2:])
+        return w
+
+    out = []
+    for op in prog:
+        op = list(op)
+        if op[0] == "add":
+            p = list(op[2])
+            if p[0] == "cp":
+                p[1] = p[1] + add
+            elif p[0] == "pulse" and not any(isinstance(x, list) and x and x[0] == "custom" for x in p[1:3]):
+                p[1], p[2] = wf(p[1]), wf(p[2])
+            op[2] = p
+        elif op[0] == "delay":
+            op[2] = op[2] + add
+        elif op[0] == "add_dmm":
+            op[2] = wf(op[2])
+        elif op[0] == "add_eom":
+            op[2] = op[2] + add
+        out.append(op)
+    return out
+
+
 def kernels(tier):
     quick = tier == "quick"
     ks = []
     for name in PROGRAMS:
         ks.append(("program", dict(program=name, ext=[0, 3] if quick else [0, 1, 5])))
+        if not quick:
+            step = 4 if PROGRAMS[name]["device"] in ("virt", "digital") else 1
+            for k in (1, 3):
+                ks.append(("program", dict(program=name, ext=[0, 2], stretch=k * step)))
     return ks
 
 
